@@ -127,6 +127,8 @@ type Cluster struct {
 	OnAction       func(*Request, *Action) *Exc // per single operation
 	OnRegionAction func(*Request, []byte) *Exc  // per region of a multi
 	ScanPolicy     func(*ScanCtx) ScanChunk
+	// Tap sees every decoded request before it is handled.
+	Tap func(*Request)
 	// ForceNoMoreResults, if it returns true for a scan request, makes the
 	// server answer it with more_results=false (and close its scanner) even
 	// though rows remain: a server-side limit or filter ended the scan.
